@@ -225,6 +225,10 @@ class ExprMixin:
         tv0 = self.eval(node.test, st)
         t = truth(tv0)
         if t is None:
+            mm = self._minmax_ifexp(node, tv0, st)
+            if mm is not None:
+                return mm
+        if t is None:
             from .interp import implied
             t = implied(tv0, st.conds)
         if t is None:
@@ -234,6 +238,26 @@ class ExprMixin:
             t = (ch == 0)
             st.conds.append((self.eval(node.test, st), t, node))
         return self.eval(node.body if t else node.orelse, st)
+
+    def _minmax_ifexp(self, node, tv, st):
+        """`a if a > b else b` is max(a, b), `a if a < b else b` is min(a, b) (either operand order, strict or not)."""
+        simple = (ast.Name, ast.Attribute, ast.Subscript, ast.Constant)
+        if not (isinstance(node.body, simple) and isinstance(node.orelse, simple)):
+            return None
+        a = tv.single_atom() if isinstance(tv, Poly) else None
+        if a is None or a[0] != 'app' or a[1] not in ('lt', 'le') or len(a[2]) != 2:
+            return None
+        x, y = a[2]                      # the test says x < y (or <=)
+        if not (isinstance(x, Poly) and isinstance(y, Poly)):
+            return None
+        vb, vo = self.eval(node.body, st), self.eval(node.orelse, st)
+        if not (isinstance(vb, Poly) and isinstance(vo, Poly)):
+            return None
+        if vb == x and vo == y:
+            return app('min', x, y)
+        if vb == y and vo == x:
+            return app('max', x, y)
+        return None
 
     # ------------------------------------------------------------ containers
     def e_Tuple(self, node, st):
